@@ -386,10 +386,42 @@ func TestRace(t *testing.T) {
 		for i := 0; i < reps; i++ {
 			sc := Build(sn)
 			var w *World
-			x := vrt.RunFree(t, sc.Cfg, func(s *vrt.Sched) vrt.Env {
-				w = newWorld(s, sc)
-				return w
-			})
+			var x *vrt.Exec
+			done := make(chan struct{})
+			go func() {
+				defer close(done)
+				x = vrt.RunFree(t, sc.Cfg, func(s *vrt.Sched) vrt.Env {
+					w = newWorld(s, sc)
+					return w
+				})
+			}()
+			// Watchdog (real time): a free run takes milliseconds. One
+			// that is still going after 90 s is stuck; with the real sync
+			// types of this build a lock-order deadlock shows exactly like
+			// that (goroutines waiting for a mutex are not durably blocked,
+			// so the bubble's clock stops as well).
+			select {
+			case <-done:
+			case <-time.After(90 * time.Second):
+				first := lockWaiters()
+				time.Sleep(3 * time.Second)
+				second := lockWaiters()
+				var stuck []string
+				for g, site := range first {
+					if second[g] == site {
+						stuck = append(stuck, site)
+					}
+				}
+				sort.Strings(stuck)
+				if len(stuck) >= 2 {
+					fmt.Printf("RACEPASS-DEADLOCK scenario=%s goroutines=%d sites=%s\n", sn, len(stuck), strings.Join(stuck, ","))
+				} else {
+					fmt.Printf("RACEPASS-TIMEOUT scenario=%s\n", sn)
+				}
+				fmt.Printf("RACEPASS runs=%d scenarios=%d\n", runs, len(scenarios))
+				exitCode = 0
+				os.Exit(0)
+			}
 			runs++
 			for _, p := range x.Panics {
 				fmt.Printf("RACEPASS-PANIC scenario=%s thread=%s %s\n", sn, p.Thread, p.Value)
@@ -399,4 +431,34 @@ func TestRace(t *testing.T) {
 	}
 	fmt.Printf("RACEPASS runs=%d scenarios=%d\n", runs, len(scenarios))
 	exitCode = 0
+}
+
+// lockWaiters returns, per goroutine id, the first gbn frame of every
+// goroutine that is waiting for a sync.Mutex / sync.RWMutex right now.
+func lockWaiters() map[string]string {
+	buf := make([]byte, 8<<20)
+	buf = buf[:runtime.Stack(buf, true)]
+	out := map[string]string{}
+	for _, g := range strings.Split(string(buf), "\n\n") {
+		lines := strings.Split(g, "\n")
+		if len(lines) == 0 || !strings.HasPrefix(lines[0], "goroutine ") {
+			continue
+		}
+		hdr := lines[0]
+		if !strings.Contains(hdr, "sync.Mutex.Lock") && !strings.Contains(hdr, "sync.RWMutex") && !strings.Contains(hdr, "semacquire") {
+			continue
+		}
+		id := strings.Fields(hdr)[1]
+		for _, l := range lines[1:] {
+			if i := strings.Index(l, "lightning-node-connect/gbn."); i >= 0 && !strings.Contains(l, "/vrt") {
+				f := l[i+len("lightning-node-connect/"):]
+				if j := strings.LastIndexByte(f, '('); j > 0 {
+					f = f[:j]
+				}
+				out[id] = f
+				break
+			}
+		}
+	}
+	return out
 }
